@@ -339,8 +339,8 @@ func (e *c05Env) drainStdout() []byte {
 	}
 }
 
-func c05HandlerRunning() bool {
-	buf := make([]byte, 1<<16)
+func c05StackHas(fn string) bool {
+	buf := make([]byte, 1<<17)
 	for {
 		n := runtime.Stack(buf, true)
 		if n < len(buf) {
@@ -349,8 +349,10 @@ func c05HandlerRunning() bool {
 		}
 		buf = make([]byte, len(buf)*2)
 	}
-	return bytes.Contains(buf, []byte("(*TrzszFilter).handleTrzsz"))
+	return bytes.Contains(buf, []byte(fn))
 }
+
+func c05HandlerRunning() bool { return c05StackHas("(*TrzszFilter).handleTrzsz") }
 
 func c05DragFlagOn() bool { // the goroutine of wrapInput that switches drag detection on has run
 	buf := make([]byte, 1<<16)
@@ -851,8 +853,23 @@ func (e *c05Env) xfer(how string, up bool, v int, dragPaths []string) (*c05XferR
 		serverDone <- err
 	}()
 	// the server prints its trigger
-	if _, err := e.feed("out", "trig", e.trigger(mode)); err != nil {
+	tc, err := e.feed("out", "trig", e.trigger(mode))
+	if err != nil {
 		return nil, err
+	}
+	if tc.body != "other" {
+		// the filter did not take the trigger (recorded: doneOut of a "trig" chunk): no transfer will
+		// start; release the server side and give up on this scenario
+		st.stopTransferringFiles(false)
+		select {
+		case <-serverDone:
+		case <-time.After(30 * time.Second):
+			return nil, fmt.Errorf("server side did not return after being stopped")
+		}
+		_ = e.drainStdout()
+		res.Note = "trigger-not-taken"
+		res.Idle = false
+		return res, nil
 	}
 
 	if gate != nil {
@@ -1070,6 +1087,9 @@ func (e *c05Env) dragSession(v int) (map[string]any, error) {
 			return nil, err
 		}
 		obs["upload_idle"] = r.Idle
+		if !r.Idle {
+			return obs, nil
+		}
 	}
 	for i := 0; e.f.dragging.Load(); i++ {
 		if i > 10000 {
@@ -1079,8 +1099,12 @@ func (e *c05Env) dragSession(v int) (map[string]any, error) {
 	}
 	// uploadDragFiles sleeps 3 s after the command and then resets the drag state once more: let it
 	// finish, so that it cannot cancel a later drop of the same scenario
-	if d := 3300*time.Millisecond - time.Since(cmdAt); d > 0 {
-		time.Sleep(d)
+	_ = cmdAt
+	for i := 0; c05StackHas("(*TrzszFilter).uploadDragFiles"); i++ {
+		if i > 10000 {
+			return nil, fmt.Errorf("uploadDragFiles still running 10s after the drag was reset")
+		}
+		time.Sleep(time.Millisecond)
 	}
 	e.emitMode(true, fmt.Sprintf("drag%d", v))
 	return obs, nil
@@ -1143,7 +1167,11 @@ func (e *c05Env) run(sc *c05Scenario) error {
 			if err != nil {
 				return err
 			}
-			e.result(si, st, map[string]any{"how": st.How, "up": st.Up, "v": st.V, "idle": r.Idle, "server_err": r.ServerErr})
+			e.result(si, st, map[string]any{"how": st.How, "up": st.Up, "v": st.V, "idle": r.Idle, "server_err": r.ServerErr, "note": r.Note})
+			if !r.Idle {
+				// the filter never came back (recorded as mode{idle:false}): nothing after it can be driven
+				return nil
+			}
 		case "zsess":
 			o, err := e.zsession(st.V)
 			if err != nil {
@@ -1156,6 +1184,9 @@ func (e *c05Env) run(sc *c05Scenario) error {
 				return err
 			}
 			e.result(si, st, o)
+			if idle, ok := o["upload_idle"].(bool); ok && !idle {
+				return nil
+			}
 		case "mode":
 			e.waitIdle("probe")
 		default:
